@@ -55,8 +55,8 @@ theorem kok_base (s : RStmt) : KOK (baseA s) (inputs s) (sacc s) := by
   · right; exact h
 
 /-- from agreement on the recorded inputs to the simulation invariant after the region -/
-theorem sim_final {s : RStmt} {S : Defs} {σ τ : Store} (hc : chk (inputs s) s ([], []) = some S)
-    (h : AgreeV s (inputs s) σ τ) : SimS (baseA s) S σ τ (rexec fuel s σ) (rexec fuel s τ) := by
+theorem sim_final {s : RStmt} {S : Defs} {σ τ : Store} (hcv : covered s = true)
+    (hc : chk (inputs s) s ([], []) = some S) (h : AgreeV s (inputs s) σ τ) : SimS (baseA s) S σ τ (rexec fuel s σ) (rexec fuel s τ) := by
   have h0 : SimS (baseA s) ([], []) σ τ σ τ := by
     refine ⟨⟨?_, fun l => Or.inr ⟨rfl, rfl⟩⟩, fun p hp => by cases hp⟩
     intro l hl
@@ -64,7 +64,7 @@ theorem sim_final {s : RStmt} {S : Defs} {σ τ : Store} (hc : chk (inputs s) s 
     rcases hl with hl | hl
     · exact h x hl.1 i j hl.2
     · exact absurd hl.1 (by simp)
-  exact (chk_sim s ([], []) S σ τ hc (kok_base s) h0).1
+  exact (chk_sim s hcv ([], []) S σ τ hc (kok_base s) h0).1
 
 theorem outDefined_chk {s : RStmt} (h : OutputsDefined s) : WholeFirstWrites s := by
   unfold OutputsDefined outDefined at h
@@ -78,30 +78,31 @@ theorem outDefined_chk {s : RStmt} (h : OutputsDefined s) : WholeFirstWrites s :
 /-- the full claim: replaying the region from a store that agrees with the original one on
 the recorded inputs reproduces the recorded outputs -/
 def C12_statement : Prop :=
-  ∀ (fuel : Nat) (s : RStmt) (σ τ : Store), AgreeV s (inputs s) σ τ →
+  ∀ (fuel : Nat) (s : RStmt) (σ τ : Store), covered s = true → AgreeV s (inputs s) σ τ →
     AgreeV s (outputs s) (rexec fuel s σ) (rexec fuel s τ)
 
 /-- the input half alone: every value the region stores is determined by the recorded inputs
 (each location ends with the same value in both runs, or is left untouched by both) -/
 def C12_inputs_statement : Prop :=
-  ∀ (fuel : Nat) (s : RStmt) (σ τ : Store), AgreeV s (inputs s) σ τ →
+  ∀ (fuel : Nat) (s : RStmt) (σ τ : Store), covered s = true → AgreeV s (inputs s) σ τ →
     ∀ l, (rexec fuel s σ) l = (rexec fuel s τ) l ∨ ((rexec fuel s σ) l = σ l ∧ (rexec fuel s τ) l = τ l)
 
 /-- **outputs are complete** (all regions, all stores): a variable any element of which the
 region changes is in the output list -/
-theorem C12_outputs (s : RStmt) (σ : Store) (x : Nat) (i j : Int)
+theorem C12_outputs (s : RStmt) (hc : covered s = true) (σ : Store) (x : Nat) (i j : Int)
     (h : (rexec fuel s σ) (x, i, j) ≠ σ (x, i, j)) : x ∈ outputs s := by
   apply Classical.byContradiction
   intro hx
   apply h
   apply rexec_frame
   intro hw
-  exact hx (mem_outputsE.mpr (wvars_written hw))
+  exact hx (mem_outputsE.mpr (wvars_written hc hw))
 
 /-- the same for a region given as a list of consecutive statements -/
-theorem C12_outputs_region (region : List RStmt) (σ : Store) (x : Nat) (i j : Int)
+theorem C12_outputs_region (region : List RStmt) (hc : covered (rseqs region) = true) (σ : Store)
+    (x : Nat) (i j : Int)
     (h : (rexec fuel (rseqs region) σ) (x, i, j) ≠ σ (x, i, j)) : x ∈ (inOut region).2 :=
-  C12_outputs (rseqs region) σ x i j h
+  C12_outputs (rseqs region) hc σ x i j h
 
 /-- an output is exactly a variable with a WRITE access; an input exactly a variable whose
 first access is not a WRITE -/
@@ -115,20 +116,20 @@ theorem C12_inputs_char (s : RStmt) (x : Nat) :
 /-- **inputs are complete, partial**: if every first-written variable that is read is a scalar
 defined unconditionally before those reads, the values the region stores do not depend on
 anything but the recorded inputs -/
-theorem C12_inputs_partial (s : RStmt) (hw : WholeFirstWrites s) (σ τ : Store)
+theorem C12_inputs_partial (s : RStmt) (hc : covered s = true) (hw : WholeFirstWrites s) (σ τ : Store)
     (h : AgreeV s (inputs s) σ τ) :
     ∀ l, (rexec fuel s σ) l = (rexec fuel s τ) l ∨ ((rexec fuel s σ) l = σ l ∧ (rexec fuel s τ) l = τ l) := by
   obtain ⟨D, hD⟩ := Option.isSome_iff_exists.mp hw
-  exact (sim_final hD h).sim.rel
+  exact (sim_final hc hD h).sim.rel
 
 /-- **replay, partial**: if moreover every output is an input or such an unconditionally
 defined scalar, replaying from the recorded inputs reproduces the recorded outputs -/
-theorem C12_replay_partial (s : RStmt) (ho : OutputsDefined s) (σ τ : Store)
+theorem C12_replay_partial (s : RStmt) (hc : covered s = true) (ho : OutputsDefined s) (σ τ : Store)
     (h : AgreeV s (inputs s) σ τ) : AgreeV s (outputs s) (rexec fuel s σ) (rexec fuel s τ) := by
   unfold OutputsDefined outDefined at ho
   split at ho
   · rename_i D hD
-    have hs := sim_final (fuel := fuel) hD h
+    have hs := sim_final (fuel := fuel) hc hD h
     intro x hx i j hcell
     simp only [List.all_eq_true, Bool.or_eq_true, List.contains_iff_mem, Bool.and_eq_true,
       Bool.not_eq_true'] at ho
@@ -142,10 +143,10 @@ theorem C12_replay_partial (s : RStmt) (ho : OutputsDefined s) (σ τ : Store)
   · exact absurd ho (by simp)
 
 /-- region form of the replay theorem, in terms of `inOut` -/
-theorem C12_replay_region_partial (region : List RStmt) (ho : OutputsDefined (rseqs region))
-    (σ τ : Store) (h : AgreeV (rseqs region) (inOut region).1 σ τ) :
+theorem C12_replay_region_partial (region : List RStmt) (hc : covered (rseqs region) = true)
+    (ho : OutputsDefined (rseqs region)) (σ τ : Store) (h : AgreeV (rseqs region) (inOut region).1 σ τ) :
     AgreeV (rseqs region) (inOut region).2 (rexec fuel (rseqs region) σ) (rexec fuel (rseqs region) τ) :=
-  C12_replay_partial (rseqs region) ho σ τ h
+  C12_replay_partial (rseqs region) hc ho σ τ h
 
 /-! ## The defect: `is_written_first` is "first textual access is a write" -/
 
@@ -164,14 +165,14 @@ theorem wit_inputs : inputs wit = [] := by decide
 incoming `a(2)` -/
 theorem partial_write_counterexample : ¬ C12_statement := by
   intro h
-  have h1 := h 0 wit σw τw (by intro x hx; rw [wit_inputs] at hx; cases hx) 1 (by decide) 2 0
+  have h1 := h 0 wit σw τw (by decide) (by intro x hx; rw [wit_inputs] at hx; cases hx) 1 (by decide) 2 0
     (Or.inl (by decide))
   revert h1
   decide
 
 theorem partial_write_inputs_counterexample : ¬ C12_inputs_statement := by
   intro h
-  have h1 := h 0 wit σw τw (by intro x hx; rw [wit_inputs] at hx; cases hx) (1, 2, 0)
+  have h1 := h 0 wit σw τw (by decide) (by intro x hx; rw [wit_inputs] at hx; cases hx) (1, 2, 0)
   revert h1
   decide
 
@@ -272,7 +273,7 @@ example : ¬ (inputs cover2).contains 0 ∧ WholeFirstWrites cover2 := by decide
 theorem cover2_inputs_sufficient (σ τ : Store) (h : AgreeV cover2 (inputs cover2) σ τ) :
     ∀ l, (rexec fuel cover2 σ) l = (rexec fuel cover2 τ) l
       ∨ ((rexec fuel cover2 σ) l = σ l ∧ (rexec fuel cover2 τ) l = τ l) :=
-  C12_inputs_partial cover2 (by decide) σ τ h
+  C12_inputs_partial cover2 (by decide) (by decide) σ τ h
 
 /-- reading a different element (`a(i+1)`), or the same text after the index variable changed,
 is not covered -/
@@ -313,7 +314,7 @@ MiniF programs -/
 theorem C12_outputs_minif (s : Stmt) (σ : Store) (x : Nat) (i j : Int)
     (h : (exec s σ) (x, i, j) ≠ σ (x, i, j)) : x ∈ outputs (ofStmt s) := by
   rw [← rexec_ofStmt 0 s] at h
-  exact C12_outputs (ofStmt s) σ x i j h
+  exact C12_outputs (ofStmt s) (covered_ofStmt s) σ x i j h
 
 /-- `do while (a(1) > 0 .and. w > 0): a(1) = 0; b(w) = a(1) + 1; w = w - 1` (a=0 b=1 w=2):
 the condition is recorded before the body, so `a` and `w` are inputs -/
@@ -350,19 +351,144 @@ theorem C12_extract_lists (items : List Item) (l : List Nat × List Nat)
 
 /-- hence for every ACCEPTED extraction region the theorems above apply to the recorded lists -/
 theorem C12_extract_outputs (items : List Item) (l : List Nat × List Nat)
-    (h : extractTrans items = some l) (σ : Store) (x : Nat) (i j : Int)
+    (h : extractTrans items = some l) (hc : covered (rseqs (itemsStmt items)) = true)
+    (σ : Store) (x : Nat) (i j : Int)
     (hx : (rexec fuel (rseqs (itemsStmt items)) σ) (x, i, j) ≠ σ (x, i, j)) : x ∈ l.2 := by
   rw [(C12_extract_lists items l h).2]
-  exact C12_outputs_region (itemsStmt items) σ x i j hx
+  exact C12_outputs_region (itemsStmt items) hc σ x i j hx
 
-example : extractTrans [.stmt wloop, .excluded] = none := by decide
-/-- a CodeBlock contributes no access to plain `get_in_out_parameters`: for
-`s1 = sum((/ (s0*ii, ii=1,3) /))` (exported as `s1 = <opaque>`) and a FORALL CodeBlock the lists
-are inputs [] / outputs [s1] — whatever the CodeBlocks read or write is invisible; only the
-refusal by `ExtractTrans` protects extraction regions -/
-theorem codeblock_invisible_example :
-    inOutItems [.stmt (.assign 1 (.lit 0)), .excluded] = ([], [1])
-    ∧ extractTrans [.stmt (.assign 1 (.lit 0)), .excluded] = none := by decide
+example : extractTrans [.stmt wloop, .excluded .skip] = none := by decide
+/-! ## Unanalysed code: CodeBlocks and calls of unknown intent (`RStmt.code acc body`)
+
+At HEAD `CodeBlock.reference_accesses` reports READWRITE of every name the CodeBlock uses, and
+`Call.reference_accesses` READWRITE of every by-reference argument of a call of unknown intent.
+All theorems above hold for regions containing such code under the explicit hypothesis `covered`
+(the code touches nothing but what its access list announces).  Consequences: -/
+
+theorem mem_accEvs {acc : List Acc} {e : Ev} : e ∈ accEvs acc ↔ ∃ a ∈ acc, e ∈ accEv a := by
+  induction acc with
+  | nil => simp [accEvs]
+  | cons a r ih => simp [accEvs, ih]
+
+/-- every READWRITE-accessed name (each name of a CodeBlock, each by-reference argument of a call
+of unknown intent) is an output -/
+theorem C12_code_rw_output (acc : List Acc) (body : RStmt) (x : Nat) (arr : Bool)
+    (h : Acc.rw x arr ∈ acc) : x ∈ outputs (.code acc body) := by
+  rw [C12_outputs_char, isWritten_iff]
+  refine ⟨⟨x, true, arr, true⟩, ?_, rfl, rfl⟩
+  simp only [sacc]
+  exact mem_accEvs.mpr ⟨_, h, by simp [accEv]⟩
+
+/-- the access list of a statement CodeBlock: READWRITE of every name, in `get_symbol_names` order -/
+def cbAcc (names : List (Nat × Bool)) : List Acc := names.map (fun n => Acc.rw n.1 n.2)
+
+theorem writtenFirst_cb (names : List (Nat × Bool)) (x : Nat) :
+    writtenFirst (accEvs (cbAcc names)) x = false := by
+  induction names with
+  | nil => rfl
+  | cons n r ih =>
+    unfold writtenFirst firstOf at ih ⊢
+    simp only [cbAcc, List.map_cons, accEvs, accEv, List.cons_append, List.nil_append, List.find?_cons]
+    by_cases h : n.1 = x
+    · simp [h]
+    · have hb : (n.1 == x) = false := by simpa using h
+      simp only [hb]
+      exact ih
+
+theorem cb_input {names : List (Nat × Bool)} {body : RStmt} {x : Nat}
+    (hx : ∃ e ∈ accEvs (cbAcc names), e.var = x) : x ∈ inputs (.code (cbAcc names) body) :=
+  (C12_inputs_char _ _).mpr ⟨by simpa [sacc] using hx, by simpa [sacc] using writtenFirst_cb names x⟩
+
+/-- **a CodeBlock's names are inputs and outputs**: whatever a CodeBlock may read is recorded
+and whatever it may change is recorded (the pre-fix code recorded nothing) -/
+theorem C12_codeblock_names_in_out (names : List (Nat × Bool)) (body : RStmt) (n : Nat × Bool)
+    (h : n ∈ names) :
+    n.1 ∈ inputs (.code (cbAcc names) body) ∧ n.1 ∈ outputs (.code (cbAcc names) body) := by
+  have hm : Acc.rw n.1 n.2 ∈ cbAcc names := List.mem_map.mpr ⟨n, h, rfl⟩
+  refine ⟨cb_input ⟨⟨n.1, false, n.2, true⟩, mem_accEvs.mpr ⟨_, hm, by simp [accEv]⟩, rfl⟩, ?_⟩
+  exact C12_code_rw_output _ body n.1 n.2 hm
+
+/-- **a region that is one CodeBlock satisfies the full claim**: both side conditions hold, so
+(with `C12_replay_partial`) replaying it from the recorded inputs reproduces the recorded outputs -/
+theorem C12_codeblock_outputsDefined (names : List (Nat × Bool)) (body : RStmt)
+    (hc : covered (.code (cbAcc names) body) = true) : OutputsDefined (.code (cbAcc names) body) := by
+  simp only [covered, Bool.and_eq_true] at hc
+  have hs : (chk (inputs (.code (cbAcc names) body)) body ([], [])).isSome = true := by
+    apply chk_of_reads body hc.2
+    intro ev he _
+    obtain ⟨e', he', hv', _, _⟩ := coveredBy_iff.mp hc.1 ev he
+    exact cb_input ⟨e', he', hv'⟩
+  obtain ⟨S, hS⟩ := Option.isSome_iff_exists.mp hs
+  unfold OutputsDefined outDefined
+  simp only [chk, hS]
+  simp only [List.all_eq_true, Bool.or_eq_true, List.contains_iff_mem]
+  intro x hx
+  left
+  obtain ⟨e, he, hv, _⟩ := isWritten_iff.mp ((C12_outputs_char _ _).mp hx)
+  exact cb_input ⟨e, by simpa [sacc] using he, hv⟩
+
+theorem C12_codeblock_replay (names : List (Nat × Bool)) (body : RStmt)
+    (hc : covered (.code (cbAcc names) body) = true) (σ τ : Store)
+    (h : AgreeV (.code (cbAcc names) body) (inputs (.code (cbAcc names) body)) σ τ) :
+    AgreeV (.code (cbAcc names) body) (outputs (.code (cbAcc names) body))
+      (rexec fuel (.code (cbAcc names) body) σ) (rexec fuel (.code (cbAcc names) body) τ) :=
+  C12_replay_partial _ hc (C12_codeblock_outputsDefined names body hc) σ τ h
+
+/-- `forall (ii = 2:4) c(ii) = s0 + ii` (c=2 s0=6 ii=3; ii is construct-local and unchanged) -/
+def cbForall : RStmt :=
+  .code (cbAcc [(3, false), (2, true), (3, false), (6, false), (3, false)])
+    (.seq (.store1 2 (.lit 2) (.bin .add (.var 6) (.lit 2)))
+      (.seq (.store1 2 (.lit 3) (.bin .add (.var 6) (.lit 3))) (.store1 2 (.lit 4) (.bin .add (.var 6) (.lit 4)))))
+
+example : covered cbForall = true ∧ OutputsDefined cbForall
+    ∧ (inputs cbForall).contains 6 ∧ (inputs cbForall).contains 2 ∧ (outputs cbForall).contains 2 := by decide
+/-- code that touches a variable its access list does not announce is excluded by `covered` -/
+example : covered (.code (cbAcc [(3, false)]) (.assign 6 (.lit 1))) = false := by decide
+
+/-- `b(1:3) = (/ (t + ii, ii = 1, 3) /)` (b=1 t=2 ii=3): an assignment whose RHS is an expression
+CodeBlock — READWRITE t, ii, ii; the READs of the section bounds; WRITE b.  `t` and `ii` are now
+inputs, but `b`'s first access is the (partial) WRITE: `b` is no input, and the recorded `b` is
+not reproduced — an instance of the partial-first-write defect, not of CodeBlock invisibility -/
+def cbSection : RStmt :=
+  .code [.rw 2 false, .rw 3 false, .rw 3 false, .rd (.bin .add (.lit 1) (.lit 3)), .wr 1 true]
+    (.seq (.store1 1 (.lit 1) (.bin .add (.var 2) (.lit 1)))
+      (.seq (.store1 1 (.lit 2) (.bin .add (.var 2) (.lit 2))) (.store1 1 (.lit 3) (.bin .add (.var 2) (.lit 3)))))
+
+example : covered cbSection = true ∧ inputs cbSection = [2, 3] ∧ (outputs cbSection).contains 1
+    ∧ (outputs cbSection).contains 2 ∧ WholeFirstWrites cbSection ∧ ¬ OutputsDefined cbSection := by decide
+
+theorem section_codeblock_replay_counterexample :
+    ¬ (∀ fuel σ τ, AgreeV cbSection (inputs cbSection) σ τ →
+        AgreeV cbSection (outputs cbSection) (rexec fuel cbSection σ) (rexec fuel cbSection τ)) := by
+  intro h
+  have hin : inputs cbSection = [2, 3] := by decide
+  have h1 := h 0 (storeOf []) (storeOf [((1, 5, 0), 9)])
+    (by
+      intro x hx i j _
+      rw [hin] at hx
+      have hx1 : x = 2 ∨ x = 3 := by simpa using hx
+      rcases hx1 with rfl | rfl <;> simp [storeOf, Store.set])
+    1 (by decide) 5 0 (Or.inl (by decide))
+  revert h1
+  decide
+
+/-- `call bump(a, s, b(k))` of unknown intent (a=0 b=1 s=4 k=5), callee `x(1)=x(2)+y; y=y+z; z=3`:
+READWRITE a, s, b and READ k; every argument is input and output, both side conditions hold -/
+def callBump : RStmt :=
+  .code [.rw 0 true, .rw 4 false, .rw 1 true, .rd (.var 5)]
+    (.seq (.store1 0 (.lit 1) (.bin .add (.idx1 0 (.lit 2)) (.var 4)))
+      (.seq (.assign 4 (.bin .add (.var 4) (.idx1 1 (.var 5)))) (.store1 1 (.var 5) (.lit 3))))
+
+example : covered callBump = true ∧ OutputsDefined callBump ∧ (inputs callBump).contains 5
+    ∧ ¬ (outputs callBump).contains 5 := by decide
+
+/-- plain `get_in_out_parameters` on `s1 = 0; <CodeBlock using s0, ii>` (s1=1 s0=0 ii=7): the
+CodeBlock's names are inputs and outputs; `ExtractTrans` still refuses the region -/
+theorem codeblock_names_example :
+    inOutItems [.stmt (.assign 1 (.lit 0)), .excluded (.code (cbAcc [(0, false), (7, false)]) .skip)]
+      = ([0, 7], [1, 0, 7])
+    ∧ extractTrans [.stmt (.assign 1 (.lit 0)), .excluded (.code (cbAcc [(0, false), (7, false)]) .skip)] = none := by
+  decide
 
 /-! ## Regions of calls: non-local (module) variables reached through kernels / routines
 
@@ -396,9 +522,9 @@ theorem written_seqs {bodies : List RStmt} {x : Nat} (h : isWritten (sacc (rseqs
 
 /-- **outputs are complete for regions of calls**: a non-local variable that the inlined
 region changes is written by some callee, hence in the merged output list -/
-theorem C12_outputs_calls (G : List Nat) (bodies : List RStmt) (σ : Store) (x : Nat) (i j : Int)
-    (hG : x ∈ G) (h : (rexec fuel (rseqs bodies) σ) (x, i, j) ≠ σ (x, i, j)) : x ∈ outputsCalls G bodies := by
-  have h1 := (C12_outputs_char _ _).mp (C12_outputs (rseqs bodies) σ x i j h)
+theorem C12_outputs_calls (G : List Nat) (bodies : List RStmt) (hc : covered (rseqs bodies) = true)
+    (σ : Store) (x : Nat) (i j : Int) (hG : x ∈ G) (h : (rexec fuel (rseqs bodies) σ) (x, i, j) ≠ σ (x, i, j)) : x ∈ outputsCalls G bodies := by
+  have h1 := (C12_outputs_char _ _).mp (C12_outputs (rseqs bodies) hc σ x i j h)
   obtain ⟨b, hb, hw⟩ := written_seqs h1
   simp only [outputsCalls, List.mem_filter, mem_dedup, mem_unionMap, List.contains_iff_mem]
   exact ⟨⟨b, hb, (C12_outputs_char _ _).mpr hw⟩, hG⟩
